@@ -2,8 +2,9 @@
    Only ExtrOcamlBasic is used: N, positive and nat stay the extracted datatypes. *)
 From Coq Require Import Extraction ExtrOcamlBasic.
 From Snaps Require Import Base.Bytes Base.Lines Base.Dec Base.Assoc.
-From Snaps Require Import Model.Frame Model.PathModel Model.Mode Model.Api.
+From Snaps Require Import Model.Frame Model.PathModel Model.Mode Model.Api Model.Json.
 
 Extraction Language OCaml.
 Extraction "model.ml" init_state step run get_prev add_entry update_entry escape unescape
-  clean join dirname basename ext snapshot_path header.
+  clean join dirname basename ext snapshot_path header
+  valid snapshot_json set_path_text.
